@@ -263,6 +263,9 @@ def leaf(domain):
         gen += [st.builds(lambda e: M("MatchesException", "exc_info", form="type", exc=e, value_re=None), st.sampled_from(EXC_NAMES + ["Exception", "ArithmeticError"])),
                 st.builds(lambda e, r: M("MatchesException", "exc_info", form="type", exc=e, value_re=r), st.sampled_from(EXC_NAMES + ["Exception"]), st.sampled_from(["boom", "^a", ".*", "'boom'", "é"])),
                 st.builds(lambda e: M("MatchesException", "exc_info", form="instance", inst=e), EXC),
+                # a matcher (not a regex) as value_re: it is applied to the exception object itself
+                st.builds(lambda e, a: M("MatchesException", "exc_info", form="type", exc=e, value_re=None, value_args=a),
+                          st.sampled_from(EXC_NAMES + ["Exception"]), st.sampled_from([["boom"], [], ["boom", 2], ["other"]])),
                 # value_re next to an instance: documented as consulted only when a type was given
                 st.builds(lambda e, r: M("MatchesException", "exc_info", form="instance", inst=e, value_re=r), EXC, st.sampled_from(["^zzz", "boom", ".*"])),
                 st.builds(lambda es: M("MatchesException", "exc_info", form="tuple", excs=es), st.lists(st.sampled_from(EXC_NAMES), min_size=1, max_size=2))]
@@ -488,6 +491,8 @@ def build(spec, env):
             return tm.MatchesException(EXC_CLASSES[spec["inst"]["exc"]](*spec["inst"]["args"]))
         if spec["form"] == "tuple":
             return tm.MatchesException(tuple(EXC_CLASSES[e] for e in spec["excs"]))
+        if spec.get("value_args") is not None:
+            return tm.MatchesException(EXC_CLASSES[spec["exc"]], tm.AfterPreprocessing(lambda e: list(e.args), tm.Equals(list(spec["value_args"])), annotate=False))
         if spec.get("value_matcher") is not None:
             return tm.MatchesException(EXC_CLASSES[spec["exc"]], tm.AfterPreprocessing(str, B(spec["value_matcher"])))
         return tm.MatchesException(EXC_CLASSES[spec["exc"]], spec.get("value_re"))
@@ -735,6 +740,8 @@ def _ref(spec, v, env=None):
             return any(_exc_ref_type(v, EXC_CLASSES[e]) for e in spec["excs"])
         if not _exc_ref_type(v, EXC_CLASSES[spec["exc"]]):
             return False
+        if spec.get("value_args") is not None:
+            return list(v["args"]) == list(spec["value_args"])
         if spec.get("value_matcher") is not None:
             return R(spec["value_matcher"], _str_of_exc(v))
         if spec.get("value_re") is not None:
